@@ -120,12 +120,15 @@ impl Exec {
         self.models[a].has_resting_at(bid, price, t, except)
     }
 
-    fn price_ok_create(&self, a: usize, price: Option<u32>) -> bool {
+    fn price_ok_create(&self, a: usize, price: Option<u32>, place: bool) -> bool {
         match price {
             None => true,
             Some(p) => {
                 if p == 0 || p == PMAX {
-                    return false;
+                    // the two ends of the price domain are not valid limit prices; as *creation requests* they are
+                    // part of C12's "arbitrary prices" (0 is a multiple of every tick size, 2^32-1 of some): created
+                    // only, never placed (see `place_valid`)
+                    return self.cfg.allow_offgrid_create && !place;
                 }
                 p % self.tick_of(a) == 0 || self.cfg.allow_offgrid_create
             }
@@ -153,7 +156,7 @@ impl Exec {
             }
             Op::Create { a, bid, vol, trader, price } | Op::CreatePlace { a, bid, vol, trader, price } => {
                 let place = matches!(op, Op::CreatePlace { .. });
-                if *a >= assets || *vol == 0 || !self.price_ok_create(*a, *price) {
+                if *a >= assets || *vol == 0 || !self.price_ok_create(*a, *price, place) {
                     return None;
                 }
                 if self.budget[*a] + *vol as u64 > PMAX as u64 {
@@ -209,6 +212,13 @@ impl Exec {
     }
 
     fn place_valid(&self, a: usize, id: usize) -> Option<()> {
+        {
+            // a limit order created on an end of the price domain (C12 creation requests only) is never placed
+            let o = &self.models[a].orders[id];
+            if !o.is_market && (o.o.price == 0 || o.o.price == PMAX) {
+                return None;
+            }
+        }
         if self.cfg.discipline {
             let o = &self.models[a].orders[id];
             if o.o.status == NEW && !o.is_market && self.would_tie(a, o.o.bid, o.o.price, None) {
@@ -223,7 +233,8 @@ impl Exec {
             return None;
         }
         if let Some(p) = price {
-            if p == 0 || p == PMAX {
+            if p == 0 || (p == PMAX && !(self.cfg.allow_offgrid_modify && PMAX % self.tick_of(a) != 0)) {
+                // (2^32-1 as a re-price request is generated only where it is off the grid: C12's "arbitrary new prices")
                 return None;
             }
             if p % self.tick_of(a) != 0 && !self.cfg.allow_offgrid_modify {
